@@ -67,6 +67,18 @@ AnchorLikePointer ==
   \cup {[u |-> Doc1([defs |-> [a |-> T(2) @@ [anchor |-> "/$defs/b"], b |-> T(1)]] @@ PropR(LocalRef(FragPtr(<<SegN("defs", "b")>>)))), kw |-> "defs"],
         [u |-> Doc1(Stamp("definitions", [definitions |-> [a |-> T(1), b |-> T(2) @@ [id |-> IdFrag("/definitions/a")]]]
                                            @@ PropR(LocalRef(FragPtr(<<SegN("definitions", "a")>>))))), kw |-> "definitions"]}
+\* the same fragment-only pointer text in two resources of one document: each is evaluated against ITS resource
+TwoResources ==
+  {[u |-> [docs |-> <<[uri |-> URI("http", "h1", TRUE, <<"root.json">>),
+                       s |-> [properties |-> [r |-> [ref |-> LocalRef(FragPtr(<<SegN("properties", "x")>>))], x |-> T(1)],
+                              defs |-> [sub |-> [id |-> IdOf(URI("http", "h2", TRUE, <<"sub.json">>)),
+                                                 properties |-> [x |-> T(2), r |-> [ref |-> LocalRef(FragPtr(<<SegN("properties", "x")>>))]]]]]]>>],
+    kw |-> "properties"],
+   [u |-> [docs |-> <<[uri |-> URI("http", "h1", TRUE, <<"root.json">>),
+                       s |-> [properties |-> [r |-> [ref |-> LocalRef(FragPtr(<<SegN("defs", "t")>>))]],
+                              defs |-> [t |-> T(1), a |-> [id |-> IdOf(RelRef(<<"a.json">>)), defs |-> [t |-> T(2)],
+                                                           allOf |-> <<[ref |-> LocalRef(FragPtr(<<SegN("defs", "t")>>))]>>]]]]>>],
+    kw |-> "defs"]}
 \* depth 2: a keyword under a keyed / indexed parent
 NestCases ==
   {[u |-> Doc1([defs |-> (k :> [properties |-> (k2 :> T(1)) @@ ("zz" :> T(2)), allOf |-> <<T(3)>>])]
@@ -150,7 +162,7 @@ GoodRaw == {<<Join(g[1]), g[2]>> : g \in GoodRawAtoms}
 BadCases == {[u |-> Doc1(BadDoc @@ [properties |-> [p |-> TN(5), r |-> [ref |-> Ref(EmptyURI, [k |-> "raw", s |-> Join(pa)])]]]), kw |-> "bad", raw |-> Join(pa), atoms |-> pa, want |-> 99] : pa \in BadPtrAtoms}
             \cup {[u |-> Doc1(BadDoc @@ [properties |-> [p |-> TN(5), r |-> [ref |-> Ref(EmptyURI, [k |-> "raw", s |-> Join(g[1])])]]]), kw |-> "good", raw |-> Join(g[1]), atoms |-> g[1], want |-> g[2]] : g \in GoodRawAtoms}
 
-Cases == CASE Family = "P1" -> SingleCases \cup SeqCases \cup MapCases \cup TwinCases \cup AnchorLikePointer \cup NestCases
+Cases == CASE Family = "P1" -> SingleCases \cup SeqCases \cup MapCases \cup TwinCases \cup AnchorLikePointer \cup TwoResources \cup NestCases
            [] Family = "P2" -> BadCases
 
 Init == cs \in Cases /\ phase = "new"
